@@ -713,34 +713,46 @@ func runSlowSegments(c *vrun.Case, mk func(bool) (*pair, error), kind string) vr
 	if why := drainUntilMarker(p, ch, l, fmt.Sprintf("%d-pre", c.Seed)); why != "" {
 		return vrun.Inconcl(kind + ": path not working before the slow message: " + why)
 	}
-	parts := [][]byte{uniqueMsg(c.Rng, 300), uniqueMsg(c.Rng, 300), uniqueMsg(c.Rng, 120)}
-	whole := append(append(append([]byte(nil), parts[0]...), parts[1]...), parts[2]...)
-	l.sent[string(whole)]++
-	seq := 0x80000000 | uint32(c.Rng.Intn(1<<20))
-	order := []int{0, 1, 2}
-	if lastFirst {
-		order = []int{2, 0, 1}
-	}
-	for k, idx := range order {
-		if err := p.rawSend(hdr(seq, 2, uint16(idx), parts[idx])); err != nil {
-			return vrun.Inconcl(fmt.Sprintf("%s: the raw peer could not send segment %d: %v", kind, idx, err))
-		}
-		if k == 0 {
-			time.Sleep(gap)
-		}
-	}
-	why := drainUntilMarker(p, ch, l, fmt.Sprintf("%d-post", c.Seed))
 	ctx := map[string]any{"transport": kind, "gap": gap.String(), "last_segment_first": lastFirst}
-	if v := l.judge(kind, ctx); v != nil {
-		v.FindingKey += ":slow-segments"
-		return *v
+	// a datagram may be lost even on loopback: the slow message is tried up to three times (fresh content and sequence
+	// number each time); it counts as lost by the receiver only if none of the three is handed up
+	delivered, attempts := false, 0
+	for attempts < 3 && !delivered {
+		attempts++
+		parts := [][]byte{uniqueMsg(c.Rng, 300), uniqueMsg(c.Rng, 300), uniqueMsg(c.Rng, 120)}
+		whole := append(append(append([]byte(nil), parts[0]...), parts[1]...), parts[2]...)
+		l.sent[string(whole)]++
+		seq := 0x80000000 | uint32(c.Rng.Intn(1<<20))
+		order := []int{0, 1, 2}
+		if lastFirst {
+			order = []int{2, 0, 1}
+		}
+		for k, idx := range order {
+			if err := p.rawSend(hdr(seq, 2, uint16(idx), parts[idx])); err != nil {
+				return vrun.Inconcl(fmt.Sprintf("%s: the raw peer could not send segment %d: %v", kind, idx, err))
+			}
+			if k == 0 {
+				time.Sleep(gap)
+			}
+		}
+		why := drainUntilMarker(p, ch, l, fmt.Sprintf("%d-post-%d", c.Seed, attempts))
+		if v := l.judge(kind, ctx); v != nil {
+			v.FindingKey += ":slow-segments"
+			return *v
+		}
+		if why != "" {
+			return vrun.Inconcl(kind + ": no end marker delivered after the slow message (" + why + ")")
+		}
+		delivered = l.delivered[string(whole)] == 1
 	}
-	if why != "" {
-		return vrun.Inconcl(kind + ": no end marker delivered after the slow message (" + why + ")")
+	if !delivered {
+		ctx["attempts"] = attempts
+		return vrun.Violation("a message whose segments arrived seconds apart - well within the default expiry - was never handed up although later messages were", "transport-"+kind+":slow-message-forgotten", ctx)
 	}
 	res := vrun.Hold(fmt.Sprintf("%s slow gap=%v lastFirst=%v", kind, gap, lastFirst), true)
 	res.Desc = ctx
 	res.Stat(kind+":slow_messages_reassembled", 1)
+	res.Stat(kind+":slow_message_attempts", int64(attempts))
 	return res
 }
 
